@@ -10,7 +10,7 @@ COMMON = os.path.join(CON, "common")
 
 ASSUMPTIONS = [
     "hyper delivers to the handler the Request it parsed and sends the Response the handler returns",
-    "TcpConnectionContext::send_request (-> Client::send_request -> hyper SendRequest) is the only upstream write primitive of the request path",
+    "hyper http1::SendRequest::send_request, reached through HttpConnectionContext::send_request -> TcpConnectionContext::send_request -> Client::send_request (all three verified), is the only upstream write primitive of the request path (E9 stub vx_e9_hyper_send_request carries the relay preconditions of C01 C03 C04 C05 C10 C14 C15); tokio::sync::Mutex::lock returns a guard that dereferences to the protected Client",
     "proxy_authorizer::authorize / get_access_control_rules satisfy the contracts proved in unit `authorizer`",
     "http::HeaderMap::insert replaces all values of a (case-normalised) name; hyper lower-cases incoming names into HeaderName",
 ]
